@@ -83,7 +83,7 @@ prop('C12', engine='storesim', profiles={'quick': [('c12', 1600)], 'thorough': [
           'multi-level/module-derived; namespaces; every data class; JSON-like/placeholder/parameter-object values; parameter and name mode), then processes '
           'running the current tree with another hash seed must report has_data, load equal values with zero runs, use the documented layout and find run info/log '
           'beside the result; non-trivial = at least one result stored by the old tree was loaded by the current one')
-prop('C20', engine='storesim', profiles={'quick': [('c20', 1600)], 'thorough': [('c20', 40000)]}, level='exploration',
+prop('C20', engine='storesim', profiles={'quick': [('c20', 1600), ('c20crash', 500)], 'thorough': [('c20', 40000), ('c20crash', 12000)]}, level='exploration',
      nontrivial=lambda r: r['stats'].get('loads', 0) > 0,
      rule='file-rendered roots: a name-mode chain computes an arbitrary subset (all data kinds incl. directory types), then dry / real / repeated migrations '
           'in fresh simulated processes, then a parameter-mode chain on the target: has_data exactly for what had data, equal values, zero runs; listings (files + '
@@ -221,7 +221,7 @@ def zone_of(pid, scn, discs):
     return zones
 
 
-SELFTEST = [('storesim', p) for p in ('c01', 'c02', 'c04', 'c05', 'c06', 'c07', 'c12', 'c13', 'c18', 'c20')] + \
+SELFTEST = [('storesim', p) for p in ('c01', 'c02', 'c04', 'c05', 'c06', 'c07', 'c12', 'c13', 'c18', 'c20', 'c20crash')] + \
            [('cachesim', 'c14'), ('cachesim', 'c16'), ('schedsim', 'sched'), ('pmapsim', 'pmap'), ('pmapsim', 'pmaplarge')]
 
 
